@@ -1,5 +1,6 @@
 import TR.Model.Common
 import TR.Model.Bulkhead
+import TR.Model.Circuit
 /-!
 Line-protocol driver: reads the op file on stdin, prints the model's event log in the same
 grammar as the Rust harness. `settle`, duplicate `arrive`, and `poll`/`drop` of a caller that
@@ -10,6 +11,7 @@ open TR
 def machineOf (name : String) : Option Machine :=
   match name with
   | "bulkhead" => some Bulkhead.machine
+  | "circuit" => some Circuit.machine
   | _ => none
 
 structure Run (m : Machine) where
